@@ -72,7 +72,11 @@ def next_file(r, mix, j):
         t = r.choice([(2, 0), (2, 0), (0, 0), (0, 0xFF), (1, 0xFF)])
     if t == (0, 0xFF) and L == 0:
         L = 1
-    return {"name": "F%d" % j, "ext": "BIN", "type": t[0], "dtype": t[1], "load": 0x1000, "exec": 0x1000, "data": G.content(r, L, "count").hex(),
+    name = "F%d" % j
+    if j % 7 == 3 and mix in ("small", "mixed"):
+        # names as they come off foreign tapes: NUL padding instead of blanks, or no name at all (the accounting does not depend on names)
+        name = r.choice(["\0\0\0\0\0\0\0\0", "\0F%d" % j, "F%d\0\0" % j, ""])
+    return {"name": name, "ext": "BIN", "type": t[0], "dtype": t[1], "load": 0x1000, "exec": 0x1000, "data": G.content(r, L, "count").hex(),
             "kind": "ml" if t[0] == 2 else "other"}
 
 
